@@ -74,8 +74,83 @@ fn dist_fn(table: &HashMap<(u32, u32), f32>, mode: u8, a: &[u32], b: &[u32]) -> 
     }
 }
 
+/// A clustering of MANY sets (beyond 255), checked on the crate's side only: the model would need hours for it, so
+/// this is an oracle inside the harness, not a Coq evaluation.  260-300 one-term sets, distinct distances, all four
+/// methods: n-1 merges, merge k joins two nodes below n+k that were not merged before, its size is the sum of its
+/// parts, the last merge has size n, indicies() is a permutation of 0..n.  (The statement spec_C17 says the same
+/// of every generated case; here only the sizes are out of its reach.)
+fn big_clustering_is_a_dendrogram(rng: &mut Rng) -> bool {
+    let nsets = rng.range(260, 300) as usize;
+    let ids: BTreeSet<u32> = (0..nsets as u32).map(|i| 10 + 3 * i).collect();
+    let ont = flat_ontology(&ids);
+    let idv: Vec<u32> = ids.iter().copied().collect();
+    // a distinct distance for every unordered pair of terms
+    let w = nsets as u64 + 7;
+    let d = |a: u32, b: u32| -> f32 {
+        let (x, y) = if a < b { (a, b) } else { (b, a) };
+        let k = (u64::from(x) * w + u64::from(y)) % 1_000_003;
+        1.0 + (k as f32) / 1_048_576.0 + (u64::from(x) * w + u64::from(y)) as f32 / 1.0e9
+    };
+    for method in 0..4u8 {
+        let ok = crate::catch(std::panic::AssertUnwindSafe(|| {
+            let hs: Vec<HpoSet> = idv.iter().map(|x| HpoSet::new(&ont, std::iter::once(HpoTermId::from(*x)).collect::<HpoGroup>())).collect();
+            let cb = |combs: Combinations<HpoSet<'_>>| -> Vec<f32> {
+                combs
+                    .map(|(a, b)| {
+                        let (ia, ib) = (set_ids(a), set_ids(b));
+                        let mut m = f32::INFINITY;
+                        for x in &ia {
+                            for y in &ib {
+                                let v = d(*x, *y);
+                                if v < m {
+                                    m = v;
+                                }
+                            }
+                        }
+                        m
+                    })
+                    .collect()
+            };
+            let l = match method {
+                0 => Linkage::union(hs, cb),
+                1 => Linkage::single(hs, cb),
+                2 => Linkage::complete(hs, cb),
+                _ => Linkage::average(hs, cb),
+            };
+            let cl: Vec<(usize, usize, usize)> = l.cluster().map(|c| (c.lhs(), c.rhs(), c.len())).collect();
+            if cl.len() != nsets - 1 {
+                return false;
+            }
+            let mut size = vec![1usize; nsets];
+            let mut used = vec![false; 2 * nsets];
+            for (k, (a, b, z)) in cl.iter().enumerate() {
+                if *a >= nsets + k || *b >= nsets + k || a == b || used[*a] || used[*b] {
+                    return false;
+                }
+                used[*a] = true;
+                used[*b] = true;
+                if *z != size[*a] + size[*b] {
+                    return false;
+                }
+                size.push(*z);
+            }
+            if size[size.len() - 1] != nsets {
+                return false;
+            }
+            let mut idx = l.indicies();
+            idx.sort_unstable();
+            idx == (0..nsets).collect::<Vec<usize>>()
+        }));
+        if ok != Some(true) {
+            return false;
+        }
+    }
+    true
+}
+
 pub fn cases(rng: &mut Rng, count: usize, tier: &str) -> Vec<Case> {
     let mut out = vec![];
+    let big_ok = big_clustering_is_a_dendrogram(rng);
     while out.len() < count {
         let nsets = match rng.below(10) {
             0 => 2,
@@ -178,6 +253,9 @@ pub fn cases(rng: &mut Rng, count: usize, tier: &str) -> Vec<Case> {
             (cl, idx, cl2)
         }));
         let obs = match r {
+            // the big clustering of this run was no dendrogram: reported through the first case, whose observation
+            // then matches no outcome of the model
+            _ if !big_ok && out.is_empty() => V::C("Err", vec![V::C("TryFromIntError", vec![])]),
             None => V::C("Panic", vec![]),
             Some((cl, idx, cl2)) => {
                 let cl2v: Vec<V> = cl2.into_iter().map(|(a, b, d, z)| V::T(vec![nu(a), nu(b), n(d), nu(z)])).collect();
